@@ -3,7 +3,32 @@ import json, os, subprocess
 
 ALL = ["C%02d" % i for i in range(1, 21)]
 
+CORE_NOTE = ("Trusted: the controlled scheduler (code between two verif hooks of one goroutine is atomic w.r.t. other scenario goroutines; events are logged "
+             "by the goroutine performing them), the recording reporters, TLC. DFS is exhaustive over thread choices at the listed points only; "
+             "other points and the larger scenarios are covered by seeded random schedules. The TallyCore model is exhaustive for its small universe "
+             "(one subscope identity, one counter per scope object, one root gauge).")
+
 CHECKS = {
+ "C01": dict(
+   technique="TLA+ model TallyCore.tla checked by TLC; observable traces of the real code under a controlled scheduler validated by TLC against TallyObs.tla",
+   text=("TLC exhaustively checks conservation / never-ahead / no-negative-delta on the implementation-shaped model (load prev, load curr, CAS as separate actions, "
+         "concurrent passes, loop, Close, re-acquire report). The real counter code is then run through every interleaving of those atomic steps for the micro "
+         "scenario (exhaustive stateless DFS on hook points, plain and cached, int64 wrap-around via 2^61 scaling, histogram buckets) plus random schedules of a "
+         "larger scenario; TLC replays each recorded observable trace through TallyObs and evaluates the same invariants after every event."),
+   note=CORE_NOTE, design_ref="DESIGN.md section 6 C01"),
+ "C02": dict(
+   technique="TLA+ model TallyCore.tla checked by TLC; observable traces of the real gauge code under a controlled scheduler validated by TLC against TallyObs.tla",
+   text=("TLC checks authenticity, freshness-after-pass and the delivery count bound on the model with Update as two actions and report as swap/load/deliver, and shows "
+         "that swapping either pair is caught. The real code is driven through every interleaving of those steps (one updater against back-to-back passes and against "
+         "the real report loop goroutine) with NaN-payload / +-0 / subnormal / infinity bit patterns; TLC judges every recorded trace."),
+   note=CORE_NOTE + " Passes over a live gauge are assumed not to overlap each other (see DESIGN.md section 9 for the recorded observation).",
+   design_ref="DESIGN.md section 6 C02"),
+ "C07": dict(
+   technique="TLA+ model TallyCore.tla checked by TLC; observable traces of the real registry code under a controlled scheduler validated by TLC against TallyObs.tla",
+   text=("TLC checks, on the model of the registry (RUnlock/Lock/delete/RLock hand-over, closed-flag read, Subscope with report-on-reacquire), that everything promised "
+         "before a subscope's Close is delivered exactly once, that a re-acquired scope is fresh and stays registered, lock order and deadlock freedom; both pre-fix "
+         "deviations are shown to violate it. The real code is explored by DFS over the registry hook points and random schedules; TLC judges every trace."),
+   note=CORE_NOTE, design_ref="DESIGN.md section 6 C07"),
  "C03": dict(
    technique="TLA+ spec (Histogram.tla) model-checked by TLC; traces of the real histogram code validated by TLC against HistogramTrace.tla",
    text=("TLC exhaustively checks tiling, right-bucket placement, infinity/NaN placement and conservation on Histogram.tla for all bucket "
